@@ -58,6 +58,7 @@ def get_adapter(name: str) -> F.Adapter:
         a.setup()
         IL.watch(a.watch_funcs())
         a.loops = a.exit_loops()
+        a.check_lines = F.if_lines(a.cls()._start)
         _state[("adapter", name)] = a
     return a
 
@@ -144,7 +145,7 @@ def analyse(out: Outcome) -> None:
         w = in_window(step)
         if w:
             job = next((k for k, (lo, hi) in out.spans.items() if lo <= step <= hi), None)
-            out.window_steps.append((step, ev_from[1], job, tuple(sorted(target_of[t] for t in w))))
+            out.window_steps.append((step, ev_from[1], job, tuple(sorted(target_of[t] for t in w)), ev_from[2]))
     out.in_window = in_window
     # Glue hand-off: where was the submission thread when the monitor failed its loop test?
     out.handoff_exit = False
@@ -164,7 +165,9 @@ def analyse(out: Outcome) -> None:
 def classify_loss(out: Outcome, k: int) -> str:
     """Finding-key suffix for a job that was submitted and never reported, from the history."""
     a, run = out.adapter, out.run
-    starts = [w for w in out.window_steps if w[2] == k and w[1] in a.start_check_funcs()]
+    # the submission tested the running flag / thread liveness (an `if` line of _start) while a
+    # poller was past its failed loop test and had not ended yet
+    starts = [w for w in out.window_steps if w[2] == k and w[1] == "_start" and w[4] in a.check_lines]
     if starts:
         targets = sorted({t for w in starts for t in w[3]})
         if "_monitor" in targets:
@@ -318,7 +321,8 @@ def gen_cases(draw):
         if polls or status != "SUCCEEDED":
             plan[str(k)] = {"polls": polls, "status": status}
     nthreads = 4 if name == "AWSGlueExecutor" else 3
-    schedule = draw(IL.schedules(4, 420 if name != "DockerExecutor" else 240, nthreads))
+    horizon = {"DockerExecutor": 80, "AWSGlueExecutor": 340}.get(name, 140)   # ~ decision points per run
+    schedule = draw(IL.schedules(4, horizon, nthreads, min_pre=1))
     return {"exec": name, "script": script, "plan": plan, "schedule": schedule, "rel": True}
 
 
@@ -337,7 +341,7 @@ def check(ctx: Ctx) -> None:
             for name in EXECUTORS:
                 for scen in SCENARIOS:
                     explore_quick(ctx, name, scen, sample=60 if name != "AWSGlueExecutor" else 40)
-            ctx.given(gen_cases(), lambda c: check_case(ctx, c), 400)
+            ctx.given(gen_cases(), lambda c: check_case(ctx, c), 300)
         ctx.coverage_extra["executors_covered"] = ", ".join(EXECUTORS)
     finally:
         release_adapters()
